@@ -2,6 +2,7 @@
    outstanding calls.  Statements only; every proof is [exact] of a lemma proved elsewhere. *)
 From Coq Require Import List ZArith NArith Bool.
 From TarsV Require Import Gen.Consts Rpc.ReqId Rpc.ReqIdProofs Conc.Pending Conc.PendingProofs Conc.C08Corr Conc.C08Sys Conc.C08SysProofs.
+From TarsV Require Xlate.ReqIdEquiv.
 Import ListNotations.
 Open Scope Z_scope.
 
